@@ -53,6 +53,9 @@ def _violated_instances():
         {1: [[-1, 2]], 2: [[-1, 2], [-1, 4]], 3: [[-5, 6]]},
         {2: [[1, 2]], 5: [[1, 2]], 6: [[3], [1, 2]]},
     ]
+    from .. import depth
+    if depth.thorough():
+        tables += [{1: [[1], [2]], 2: [[2], [1]], 3: [[1], [2], [-3]]}, {4: [[-1, -2], [3]], 9: [[3], [-1, -2]], 11: [[3]]}]
     models = [[1, 2, 3, 4, 5, 6], [-1, -2, -3, -4, -5, -6], [1, -2, 3, -4, 5, -6], [-1, 2, -3, 4, -5, 6], [1, 2, -3, -4, -5, 6], [-1, -2, 3, 4, 5, -6]]
     for t in tables:
         keys = list(t)
